@@ -68,6 +68,7 @@ type Sim struct {
 	// behaviour per "receiver/idx"
 	behave map[string]Behave
 	insts  []*Instance
+	seq    int
 }
 
 // Instance is one in-process Alertmanager built like app.setup + reloader.reload do.
@@ -147,7 +148,20 @@ func (n *scripted) Notify(ctx context.Context, alerts ...*alert.Alert) (bool, er
 	)
 	switch b.Kind {
 	case "ok":
-		at.Outcome = "ok"
+		// A real delivery takes time. A unique number of nanoseconds per attempt keeps the
+		// instants at which deliveries complete (= notification-log timestamps) distinct, as
+		// they are with a real clock: with equal timestamps the log keeps the first of two
+		// writes, which is an artefact of virtual time.
+		s.mtx.Lock()
+		s.seq++
+		d := time.Duration(s.seq%997+1) * time.Nanosecond
+		s.mtx.Unlock()
+		select {
+		case <-time.After(d):
+			at.Outcome = "ok"
+		case <-ctx.Done():
+			at.Outcome, retry, err = "ctx", true, ctx.Err()
+		}
 	case "recoverable":
 		at.Outcome, retry, err = "recoverable", true, errors.New("scripted recoverable failure")
 	case "unrecoverable":
